@@ -360,8 +360,9 @@ func (s *spyStore) GetTokenResponse(ctx context.Context, sid string) (*oidc.Toke
 			ans = "(ATok (Some None))"
 		} else {
 			c := *t
-			cp = &c
-			t = &c // the handler gets its own copy (the memory store hands out its internal pointer)
+			cp = &c // snapshot for the record; the handler gets what the store hands out (the memory store
+			// hands out its internal pointer: a handler that writes through it changes the session without a store call,
+			// which the next read of that session exposes)
 			ans = "(ATok (Some (Some " + galTokens(&c) + ")))"
 		}
 	}
@@ -679,6 +680,7 @@ type obsResp struct {
 	Status  int         `json:"http_status"`
 	Headers [][2]string `json:"headers"`
 	Body    string      `json:"body"`
+	Message string      `json:"status_message,omitempty"`
 	Gal     string      `json:"-"`
 }
 
@@ -724,7 +726,7 @@ func observe(resp *envoy.CheckResponse, err error, panicked any) obsResp {
 	if !ok {
 		cg = "GPermissionDenied"
 	}
-	o := obsResp{Class: "deny", Code: cg, Status: int(d.GetStatus().GetCode()), Body: d.GetBody()}
+	o := obsResp{Class: "deny", Code: cg, Status: int(d.GetStatus().GetCode()), Body: d.GetBody(), Message: resp.GetStatus().GetMessage()}
 	for _, h := range d.GetHeaders() {
 		o.Headers = append(o.Headers, [2]string{h.GetHeader().GetKey(), h.GetHeader().GetValue()})
 	}
